@@ -100,9 +100,11 @@ Fixpoint forall2b {A B} (f : A -> B -> bool) (a : list A) (b : list B) : bool :=
   | _, _ => false
   end.
 
-(* `_rule`s have neither `?` nor aliases (load_grammar rejects both) *)
+(* `_rule`s have neither `?` nor aliases (load_grammar rejects both); a template instance
+   `_t{..}` is named after its template `_t` *)
 Definition inline_ok (r : rrec) : bool :=
-  negb (starts_us (r_origin r)) || (negb (r_expand1 r) && negb (truthy (r_alias r)) && negb (truthy (r_tsrc r))).
+  negb (starts_us (r_origin r))
+  || (negb (r_expand1 r) && negb (truthy (r_alias r)) && starts_us (cb_name r)).
 
 Fixpoint wf_dtree (mp : bool) (d : dtree) : bool :=
   match d with
@@ -111,18 +113,6 @@ Fixpoint wf_dtree (mp : bool) (d : dtree) : bool :=
                   && forallb (wf_dtree mp) ch
   end.
 
-(* documented shaping of a derivation, bottom-up *)
-Fixpoint shape (mp : bool) (d : dtree) : option stree :=
-  match d with
-  | DTok ty v => Some (Tok ty v)
-  | DNode r ch =>
-      match all_some (map (shape mp) ch) with
-      | Some vs => spec_rule stree NoneV skids no_user Tr r mp vs
-      | None => None
-      end
-  end.
-
-(* ---- what the LALR driver does with a derivation: post-order shift / reduce ------------ *)
 Inductive action := Shift (ty val : string) | Reduce (r : rrec).
 
 Fixpoint postorder (d : dtree) : list action :=
@@ -131,25 +121,50 @@ Fixpoint postorder (d : dtree) : list action :=
   | DNode r ch => flat_map postorder ch ++ [Reduce r]
   end.
 
-Inductive dres := DOk (stack : list stree) | DFail.
+Section Eval.
+  Variable X : Type.
+  Variable none : X.
+  Variable kids : X -> option (list X).
+  Variable user : string -> option (list X -> X).   (* rule callbacks of an embedded transformer *)
+  Variable mk : string -> list X -> X.              (* tree_class *)
+  Variable tokf : string -> string -> X.            (* value pushed for a shifted token *)
+  Variable mp : bool.
 
-(* value_stack as a list, top of the stack LAST (as in the Python list) *)
-Definition step (mp : bool) (st : list stree) (a : action) : option (list stree) :=
-  match a with
-  | Shift ty v => Some (st ++ [Tok ty v])
-  | Reduce r =>
-      let size := length (r_exp r) in
-      if Nat.ltb (length st) size then None else
-      let s := skipn (length st - size) st in           (* value_stack[-size:] *)
-      let st' := firstn (length st - size) st in        (* del value_stack[-size:] *)
-      match tree_callback r mp false s with
-      | Ok (Some v) => Some (st' ++ [v])
-      | _ => None
-      end
-  end.
+  (* documented shaping of a derivation, bottom-up *)
+  Fixpoint eval (d : dtree) : option X :=
+    match d with
+    | DTok ty v => Some (tokf ty v)
+    | DNode r ch =>
+        match all_some (map eval ch) with
+        | Some vs => spec_rule X none kids user mk r mp vs
+        | None => None
+        end
+    end.
 
-Fixpoint run_actions (mp : bool) (st : list stree) (l : list action) : option (list stree) :=
-  match l with
-  | [] => Some st
-  | a :: r => match step mp st a with Some st' => run_actions mp st' r | None => None end
-  end.
+  (* what the LALR driver (ParserState.feed_token) does along a derivation: post-order
+     shift / reduce on a value stack, top of the stack LAST as in the Python list *)
+  Definition step (st : list X) (a : action) : option (list X) :=
+    match a with
+    | Shift ty v => Some (st ++ [tokf ty v])
+    | Reduce r =>
+        let size := length (r_exp r) in
+        if Nat.ltb (length st) size then None else
+        let s := skipn (length st - size) st in           (* value_stack[-size:] *)
+        let st' := firstn (length st - size) st in        (* del value_stack[-size:] *)
+        match run_callback X none kids user mk r mp false s with
+        | Ok (Some v) => Some (st' ++ [v])
+        | _ => None
+        end
+    end.
+
+  Fixpoint run_actions (st : list X) (l : list action) : option (list X) :=
+    match l with
+    | [] => Some st
+    | a :: r => match step st a with Some st' => run_actions st' r | None => None end
+    end.
+End Eval.
+
+(* tree building without a transformer *)
+Definition shape (mp : bool) (d : dtree) : option stree := eval stree NoneV skids no_user Tr Tok mp d.
+Definition lalr_run (mp : bool) (l : list action) : option (list stree) :=
+  run_actions stree NoneV skids no_user Tr Tok mp [] l.
